@@ -650,10 +650,26 @@ func (c *Ctx) checkEIP191(sf *sol.File) {
 						}
 					}
 				}
-				// prefix first, digest second: append(prefix, hash...)
-				ex := p.Expr(call.Call.Args[0], 0)
-				if !strings.HasPrefix(ex, "append(") && !strings.HasPrefix(ex, "[append(") {
+				// prefix first, digest second: the hashed bytes are the concatenation of exactly these two
+				pcs, isList := p.PiecesOfList(call.Call.Args[0], nil)
+				if !isList {
+					pcs = p.Pieces(call.Call.Args[0], nil)
+				}
+				if len(pcs) != 2 {
 					okHash = false
+				} else {
+					l0 := p.Leaves(pcs[0].Val, ana.PVOpt{})
+					first := false
+					for lab := range l0.Leaves {
+						if strings.HasPrefix(lab, "const:") {
+							if s, err := unquote(strings.TrimPrefix(lab, "const:")); err == nil && s == solPrefix {
+								first = true
+							}
+						}
+					}
+					if !first {
+						okHash = false
+					}
 				}
 			}
 		})
@@ -662,13 +678,24 @@ func (c *Ctx) checkEIP191(sf *sol.File) {
 			okNorm = false
 			// sig[64] -= 27 under sig[64] == 27 || sig[64] == 28, before SigToPub
 			var sub *ssa.BinOp
-			ana.Instrs(f, func(in ssa.Instruction) {
-				if bo, ok := in.(*ssa.BinOp); ok && bo.Op == token.SUB {
-					if k, ok := bo.Y.(*ssa.Const); ok && k.Value != nil && k.Value.ExactString() == "27" {
-						sub = bo
+			scan := func(g *ssa.Function) {
+				ana.Instrs(g, func(in ssa.Instruction) {
+					if bo, ok := in.(*ssa.BinOp); ok && bo.Op == token.SUB {
+						if k, ok := bo.Y.(*ssa.Const); ok && k.Value != nil && k.Value.ExactString() == "27" {
+							sub = bo
+						}
+					}
+				})
+			}
+			scan(f)
+			if sub == nil {
+				// the normalisation may live in a helper of the same package that is handed the signature
+				for _, e := range p.Out[f] {
+					if e.Kind == "static" && e.Callee.Pkg == f.Pkg && sub == nil {
+						scan(e.Callee)
 					}
 				}
-			})
+			}
 			if sub != nil {
 				atom := ana.AtomCmp(func(op token.Token, x, y ssa.Value) (bool, bool) {
 					if op != token.EQL {
